@@ -1,5 +1,6 @@
 import FractopoModel.Basic.Wire
 import FractopoModel.Generated.CropHelpers
+import FractopoModel.Generated.CropPipeline
 /-!
 # Runs the REGENERATED `dissolve_multi_part_traces` (frame branch) on coded rows (translator validation, stream S07-generated): a geometry is a
 code `k` = number of parts (1 = LineString, ≥ 2 = MultiLineString of k LineStrings, 0 = a multi-part geometry without parts, 9 = a part
@@ -22,6 +23,40 @@ def gdissolve (a : Args) : Option String := do
     | .error e => s!"err={e}"
     | .ok out => s!"rows={";".intercalate (out.map fun r => s!"{r.1}:{r.2.1}:{r.2.2}")}")
 
+/-- `gcrop rows=<uid:inkind:script;…> window=<i,j,…> filt=0|1 allow=0|1`: the REGENERATED `crop_to_target_areas` with a scripted clip.
+A geometry is (kind, id): input rows are (100, uid) LineStrings or (101, uid) MultiLineStrings; the clip result of row uid is scripted:
+n nothing, l long line, s short line, p point, m2/m3 multi-line of long parts, ms multi-line of a short and a long part, c collection of a long line and a point,
+cm collection of a two-part multi-line and a point, cs collection of a short line and a point. Piece ids are uid·100 + j. -/
+def gcrop (a : Args) : Option String := do
+  let toks := (((a.get? "rows").getD "").splitOn ";").filter (· ≠ "")
+  let spec : List (Nat × Nat × String) ← toks.mapM fun t => match t.splitOn ":" with
+    | [u, k, c] => do some (← u.toNat?, ← k.toNat?, c)
+    | _ => none
+  let window ← ((((a.get? "window").getD "").splitOn ",").filter (· ≠ "")).mapM (·.toNat?)
+  let rows : List (Nat × (Nat × Nat)) := spec.map fun (u, k, _) => (u, (k, u))
+  let script : Nat → String := fun u => match spec.find? (·.1 == u) with | some x => x.2.2 | none => "n"
+  -- kinds: 1 long line, 2 short line, 9 point, 30 multi (long parts), 31 multi (short + long), 32 multi of two long parts inside a collection,
+  --        20 collection line+point, 21 collection multi+point, 22 collection short+point; 100 / 101 input line / multi-line
+  let clipg : Nat × Nat → Option (Nat × Nat) := fun g =>
+    let b := g.2 * 100
+    match script g.2 with
+    | "n" => none | "l" => some (1, b) | "s" => some (2, b) | "p" => some (9, b)
+    | "m2" => some (30, b + 2) | "m3" => some (30, b + 3) | "ms" => some (31, b)
+    | "c" => some (20, b) | "cm" => some (21, b) | "cs" => some (22, b) | _ => none
+  let isLs : Nat × Nat → Bool := fun g => g.1 == 1 || g.1 == 2 || g.1 == 100
+  let isMls : Nat × Nat → Bool := fun g => g.1 == 30 || g.1 == 31 || g.1 == 32 || g.1 == 101
+  let isColl : Nat × Nat → Bool := fun g => g.1 == 20 || g.1 == 21 || g.1 == 22
+  let parts : Nat × Nat → List (Nat × Nat) := fun g =>
+    if g.1 == 30 then (List.range (g.2 % 100)).map fun j => (1, g.2 / 100 * 100 + j + 1)
+    else if g.1 == 31 then [(2, g.2 + 1), (1, g.2 + 2)]
+    else if g.1 == 32 then [(1, g.2 + 1), (1, g.2 + 2)] else []
+  let cparts : Nat × Nat → List (Nat × Nat) := fun g =>
+    if g.1 == 20 then [(1, g.2 + 1), (9, g.2 + 2)] else if g.1 == 21 then [(32, g.2 + 10), (9, g.2 + 2)] else if g.1 == 22 then [(2, g.2 + 1), (9, g.2 + 2)] else []
+  let long : Nat × Nat → Bool := fun g => g.1 == 1
+  some (match Gen.crop_to_target_areas isMls isLs isColl parts cparts clipg long window rows ((a.get? "filt") == some "1") ((a.get? "allow") == some "1") with
+    | .error e => s!"err={e}"
+    | .ok out => s!"rows={";".intercalate (out.map fun r => s!"{r.1}:{r.2.2}")}")
+
 def dispatch (line : String) : String :=
   let toks := (line.trimAscii.toString.splitOn " ").filter (· ≠ "")
   match toks with
@@ -31,6 +66,7 @@ def dispatch (line : String) : String :=
     let r : Option String :=
       match cmd with
       | "gdissolve" => gdissolve a
+      | "gcrop" => gcrop a
       | _ => some s!"error=unknown-command:{cmd}"
     r.getD "error=bad-arguments"
 
